@@ -30,15 +30,24 @@ P256BIG = z3.Function("P256BIG", z3.IntSort(), z3.IntSort())
 P2BIG = z3.Function("P2BIG", z3.IntSort(), z3.IntSort())
 
 
-def pow256(n: Any) -> Any:
+POW_TABLE = False  # set by harnesses that need numerals for 256**n with symbolic n
+
+
+def pow256(n: Any, table: bool = False) -> Any:
+    """256**n.  For a symbolic exponent this is the uninterpreted P256(n): code and spec meet at
+    the same application, no arithmetic on it is needed (the minimal-width lemma, which does
+    need numerals, passes table=True)."""
     if isinstance(n, int):
-        return z3.IntVal(256 ** n)
+        n = z3.IntVal(n)
     n = z3.simplify(n)
     if z3.is_int_value(n):
+        if n.as_long() > 64:
+            return P256BIG(n)  # astronomically large: never compared with a numeral
         return z3.IntVal(256 ** max(0, n.as_long()))
     t = P256BIG(n)
-    for k in range(16, -1, -1):
-        t = z3.If(n == k, z3.IntVal(256 ** k), t)
+    if table or POW_TABLE:
+        for k in range(16, -1, -1):
+            t = z3.If(n == k, z3.IntVal(256 ** k), t)
     return t
 
 
@@ -63,48 +72,234 @@ def units(t: Any, n: int) -> list[Any]:
     return [t[i] for i in range(n)]
 
 
+# ---- structural view of byte strings: flatten concatenations, known part lengths -------------
+_KNOWN_LEN: dict[int, tuple[Any, Any]] = {}  # ast id -> (term kept alive, length term)
+
+
+def set_known_len(t: Any, n: Any) -> None:
+    _KNOWN_LEN[t.get_id()] = (t, n if z3.is_expr(n) else z3.IntVal(n))
+
+
+def flatten(t: Any) -> list[Any]:
+    if z3.is_app(t) and t.decl().kind() == z3.Z3_OP_SEQ_CONCAT:
+        out: list[Any] = []
+        for c in t.children():
+            out.extend(flatten(c))
+        return out
+    if z3.is_app(t) and t.decl().kind() == z3.Z3_OP_SEQ_EMPTY:
+        return []
+    return [t]
+
+
+def part_len(p: Any) -> Any:
+    k = p.decl().kind() if z3.is_app(p) else None
+    if k == z3.Z3_OP_SEQ_UNIT:
+        return z3.IntVal(1)
+    hit = _KNOWN_LEN.get(p.get_id())
+    if hit is not None:
+        return hit[1]
+    return z3.Length(p)
+
+
+def seq_len(t: Any) -> Any:
+    """Length of a byte-string term as simplified arithmetic over its parts."""
+    ps = flatten(t)
+    if not ps:
+        return z3.IntVal(0)
+    return z3.simplify(z3.Sum(*[part_len(p) for p in ps])) if len(ps) > 1 else \
+        z3.simplify(part_len(ps[0]))
+
+
+def seq_cat(ps: list[Any]) -> Any:
+    if not ps:
+        return z3.Empty(IntSeq)
+    return ps[0] if len(ps) == 1 else z3.Concat(*ps)
+
+
+def _is_zero(t: Any) -> bool:
+    t = z3.simplify(t)
+    return z3.is_int_value(t) and t.as_long() == 0
+
+
+def linear_decompose(t: Any, w: int) -> tuple[Any, int] | None:
+    """t == w*q + r with 0 <= r < w for a linear term t whose non-constant coefficients are all
+    multiples of w.  Returns (q, r)."""
+    t = z3.simplify(t)
+    terms: list[tuple[int, Any]] = []
+    const = 0
+
+    def walk(u: Any, c: int) -> bool:
+        nonlocal const
+        if z3.is_int_value(u):
+            const += c * u.as_long()
+            return True
+        if z3.is_add(u):
+            return all(walk(x, c) for x in u.children())
+        if z3.is_mul(u) and u.num_args() == 2 and z3.is_int_value(u.arg(0)):
+            return walk(u.arg(1), c * u.arg(0).as_long())
+        if z3.is_mul(u) and u.num_args() == 2 and z3.is_int_value(u.arg(1)):
+            return walk(u.arg(0), c * u.arg(1).as_long())
+        if z3.is_app(u) and u.decl().kind() == z3.Z3_OP_UMINUS:
+            return walk(u.arg(0), -c)
+        if z3.is_sub(u):
+            ch = u.children()
+            return walk(ch[0], c) and all(walk(x, -c) for x in ch[1:])
+        terms.append((c, u))
+        return True
+    if not walk(t, 1):
+        return None
+    if any(c % w for c, _ in terms):
+        return None
+    r = const % w
+    q: Any = z3.IntVal(const // w)
+    for c, u in terms:
+        q = q + (c // w) * u
+    return z3.simplify(q), r
+
+
+def _chunk_of(I: Any, p: Any) -> Any:
+    if I is None or not z3.is_const(p):
+        return None
+    return (I.ghost.get("chunks") or {}).get(p.decl().name())
+
+
+def chunk_slice(I: Any, ch: Any, rel_a: Any, length: Any) -> Any | None:
+    """Slice [rel_a, rel_a+length) of a constant-width fold result that stays inside one
+    chunk: elem(q)[r : r+length]."""
+    if ch.width is None:
+        return None
+    ln = z3.simplify(length)
+    if not z3.is_int_value(ln):
+        return None
+    d = linear_decompose(rel_a, ch.width)
+    if d is None:
+        return None
+    q, r = d
+    if r + ln.as_long() > ch.width or ln.as_long() < 0:
+        return None
+    if not I.entails(z3.And(q >= 0, q < ch.n)):
+        return None
+    I.note_index(q)
+    el = ch.elem(q)
+    if r == 0 and ln.as_long() == ch.width:
+        return el
+    inner = structural_slice(el, z3.IntVal(r), z3.IntVal(r + ln.as_long()), I)
+    return inner if inner is not None else z3.SubSeq(el, z3.IntVal(r), ln)
+
+
+def structural_slice(t: Any, a: Any, b: Any, I: Any = None) -> Any | None:
+    """t[a:b] for bounds that coincide with part boundaries of the flattened concatenation
+    (syntactically after simplification, else entailed by the arithmetic part of the path
+    condition); None when they do not."""
+    ps = flatten(t)
+    offs = [z3.IntVal(0)]
+    for p in ps:
+        offs.append(z3.simplify(offs[-1] + part_len(p)))
+
+    def find(x: Any) -> int | None:
+        r = next((i for i, o in enumerate(offs) if _is_zero(x - o)), None)
+        if r is None and I is not None:
+            r = next((i for i, o in enumerate(offs) if I.entails(x == o)), None)
+        return r
+    ia = find(a)
+    ib = find(b)
+    if I is not None and (ia is None or ib is None):
+        # inside a single fold result (Chunks part)?
+        for i, p in enumerate(ps):
+            ch = _chunk_of(I, p)
+            if ch is not None:
+                r = chunk_slice(I, ch, z3.simplify(a - offs[i]), z3.simplify(b - a))
+                if r is not None:
+                    return r
+    if ia is not None and ib is not None:
+        return seq_cat(ps[ia:ib]) if ib >= ia else z3.Empty(IntSeq)
+    if ia is not None:
+        rest = seq_cat(ps[ia:])
+        return z3.SubSeq(rest, z3.IntVal(0), z3.simplify(b - a))
+    if ib is not None:
+        return z3.SubSeq(seq_cat(ps[:ib]), a, z3.simplify(b - a))
+    return None
+
+
+def structural_index(t: Any, i: Any, I: Any = None) -> Any | None:
+    ps = flatten(t)
+    off: Any = z3.IntVal(0)
+    for p in ps:
+        ch = _chunk_of(I, p)
+        if ch is not None:
+            r = chunk_slice(I, ch, z3.simplify(i - off), z3.IntVal(1))
+            if r is not None:
+                r = z3.simplify(r)
+                if z3.is_app(r) and r.decl().kind() == z3.Z3_OP_SEQ_UNIT:
+                    return r.arg(0)
+                return r[0]
+        if z3.is_app(p) and p.decl().kind() == z3.Z3_OP_SEQ_UNIT and (
+                _is_zero(i - off) or (I is not None and I.entails(i == off))):
+            return p.arg(0)
+        d = z3.simplify(i - off)
+        pl = z3.simplify(part_len(p))
+        if z3.is_int_value(d) and z3.is_int_value(pl) and 0 <= d.as_long() < pl.as_long():
+            return p[d] if pl.as_long() > 1 or p.decl().kind() != z3.Z3_OP_SEQ_UNIT else p.arg(0)
+        off = z3.simplify(off + pl)
+    return None
+
+
+# widths up to this many bytes are spelled out with div/mod; wider integers stay behind the
+# uninterpreted BE/FB pair (their round trip is structural, no div/mod reasoning is needed)
+EXPLICIT_WIDTH = 2
+
+
 def mk_fb(I: Interp, s: Any) -> Any:
     """from_bytes(s, 'big') as an Int term, with the defining facts added to the path."""
-    n = seq_len_concrete(s)
-    if n is not None and n <= 8:
+    n = seq_len(s)
+    if z3.is_int_value(n) and n.as_long() <= EXPLICIT_WIDTH:
         acc: Any = z3.IntVal(0)
-        for i in range(n):
-            acc = acc * 256 + s[i]
-            I.assume(z3.And(s[i] >= 0, s[i] <= 255))
+        for i in range(n.as_long()):
+            el = structural_index(s, z3.IntVal(i))
+            if el is None:
+                el = s[i]
+            acc = acc * 256 + el
+            I.assume(z3.And(el >= 0, el <= 255))
         return z3.simplify(acc)
+    # BE(x, n) round trip is structural
+    if z3.is_app(s) and s.decl().eq(BE):
+        return s.arg(0)
     t = FB(s)
-    ln = z3.Length(s)
+    ln = n
     I.assume(t >= 0)
     I.assume(t < pow256(ln))
-    I.assume(z3.Implies(ln == 0, t == 0))
-    acc = z3.IntVal(0)
-    for k in range(1, 5):
-        acc = acc * 256 + s[k - 1]
-        I.assume(z3.Implies(ln >= k, z3.And(s[k - 1] >= 0, s[k - 1] <= 255)))
-        I.assume(z3.Implies(ln == k, t == acc))
     I.assume(BE(t, ln) == s)
+    if not I.feasible(ln > 4):
+        I.assume(z3.Implies(ln == 0, t == 0))
+        acc = z3.IntVal(0)
+        for k in range(1, 5):
+            acc = acc * 256 + s[k - 1]
+            I.assume(z3.Implies(ln >= k, z3.And(s[k - 1] >= 0, s[k - 1] <= 255)))
+            I.assume(z3.Implies(ln == k, t == acc))
     return t
 
 
 def mk_be(I: Interp, x: Any, n: Any) -> Any:
     """x.to_bytes(n, 'big') for 0 <= x < 256**n, n >= 0 (callers check the range)."""
     nc = z3.simplify(n) if not isinstance(n, int) else z3.IntVal(n)
-    if z3.is_int_value(nc) and nc.as_long() <= 8:
+    if z3.is_int_value(nc) and nc.as_long() <= EXPLICIT_WIDTH:
         k = nc.as_long()
         if k == 0:
             return z3.Empty(IntSeq)
-        parts = [z3.Unit(z3.simplify((x / z3.IntVal(256 ** (k - 1 - i))) % 256))
-                 for i in range(k)]
+        # callers guarantee 0 <= x < 256**k, so the most significant byte needs no reduction
+        parts = [z3.Unit(z3.simplify(x / z3.IntVal(256 ** (k - 1)) if k > 1 else x))]
+        parts += [z3.Unit(z3.simplify((x / z3.IntVal(256 ** (k - 1 - i))) % 256))
+                  for i in range(1, k)]
         return parts[0] if k == 1 else z3.Concat(*parts)
-    t = BE(x, n)
-    I.assume(z3.Length(t) == n)
+    x = z3.simplify(x)
+    # to_bytes(from_bytes(s), len(s)) == s is structural
+    if z3.is_app(x) and x.decl().eq(FB) and _is_zero(seq_len(x.arg(0)) - nc):
+        return x.arg(0)
+    t = BE(x, nc)
+    set_known_len(t, nc)
+    I.assume(z3.Length(t) == nc)
     I.assume(FB(t) == x)
-    for k in range(1, 5):
-        parts = [z3.Unit((x / z3.IntVal(256 ** (k - 1 - i))) % 256) for i in range(k)]
-        I.assume(z3.Implies(n == k, t == (parts[0] if k == 1 else z3.Concat(*parts))))
-    I.assume(z3.Implies(n == 0, t == z3.Empty(IntSeq)))
-    I.lambda_axioms_add(lambda j, t=t, n=n: z3.Implies(z3.And(j >= 0, j < n),
-                                                       z3.And(t[j] >= 0, t[j] <= 255)))
+    # (element ranges 0..255 are assumed where an element is actually read: getitem/mk_fb)
     return t
 
 
@@ -194,6 +389,9 @@ def iterate(I: Interp, v: V) -> list[V]:
         n = z3.simplify(v.n)
         if z3.is_int_value(n):
             return [v.get(z3.IntVal(j)) for j in range(n.as_long())]
+        k = I.concrete_value(n)
+        if k is not None and 0 <= k <= 4096:
+            return [v.get(z3.IntVal(j)) for j in range(k)]
         raise Unsupported("iteration over a sequence of symbolic length (needs a loop template)")
     if isinstance(v, VDict):
         return [k for k, _ in v.items]
@@ -227,7 +425,7 @@ def mk_eq(I: Interp, a: V, b: V) -> Any:
     if isinstance(a, VFloat) or isinstance(b, VFloat):
         return to_real(a) == to_real(b)
     if isinstance(a, VBytes) and isinstance(b, VBytes):
-        return a.t == b.t
+        return bytes_eq(I, a.t, b.t)
     if isinstance(a, VStr) and isinstance(b, VStr):
         if a.s is not None and b.s is not None:
             return a.s == b.s
@@ -273,6 +471,51 @@ def mk_eq(I: Interp, a: V, b: V) -> Any:
     if isinstance(a, VConst) or isinstance(b, VConst):
         return False
     raise Unsupported(f"equality {a!r} == {b!r}")
+
+
+def bytes_eq(I: Interp, at: Any, bt: Any) -> Any:
+    """Equality of byte strings, aware of fold results (loops.Chunks).
+
+    If both sides are  s_0 ++ C ++ s_1  with C, C' concatenations of n resp. n' chunks, the
+    chunk lemma gives:  at == bt  <=  s_0 == s'_0 and n == n' and elem(j) == elem'(j) for all j
+    and s_1 == s'_1.  The returned Bool e satisfies  e => at == bt  and
+    not e => one of those conjuncts fails (with a Skolem chunk index)."""
+    from . import loops
+    if at is None or bt is None:
+        raise Unsupported("comparison of ascii-bytes with raw bytes")
+    chunks = I.ghost.get("chunks")
+    if not chunks:
+        return at == bt
+    pa, pb = loops.flatten_concat(at), loops.flatten_concat(bt)
+
+    def is_chunk(t: Any) -> bool:
+        return z3.is_const(t) and t.decl().name() in chunks
+    ia = [i for i, t in enumerate(pa) if is_chunk(t)]
+    ib = [i for i, t in enumerate(pb) if is_chunk(t)]
+    if len(ia) != 1 or len(ib) != 1:
+        return at == bt
+    ca, cb = chunks[pa[ia[0]].decl().name()], chunks[pb[ib[0]].decl().name()]
+    if ca is cb:
+        return at == bt
+    if (ca.width is None) != (cb.width is None) or (ca.width is not None
+                                                    and ca.width != cb.width):
+        return at == bt
+
+    def seg(ps: list[Any]) -> Any:
+        if not ps:
+            return z3.Empty(IntSeq)
+        return ps[0] if len(ps) == 1 else z3.Concat(*ps)
+    sk = z3.Int(I.fresh_name("chunk_sk"))
+    I.note_index(sk)
+    conds = [seg(pa[:ia[0]]) == seg(pb[:ib[0]]), ca.n == cb.n,
+             z3.Implies(z3.And(sk >= 0, sk < ca.n), ca.elem(sk) == cb.elem(sk)),
+             seg(pa[ia[0] + 1:]) == seg(pb[ib[0] + 1:])]
+    e = z3.Bool(I.fresh_name("bytes_eq"))
+    I.assume(z3.Implies(z3.Not(e), z3.Not(z3.And(*conds))))
+    I.assume(z3.Implies(e, at == bt))
+    I.ex.assumptions.add("chunk lemma: equal chunk count and pointwise equal chunks imply equal "
+                         "concatenations (sequence fact, cross-checked on CPython)")
+    return e
 
 
 def seq_eq(I: Interp, a: VList, b: VList) -> Any:
@@ -534,6 +777,10 @@ def binop(I: Interp, op: ast.operator, a: V, b: V) -> V:
             raise Unsupported("shift by symbolic amount")
         if yc < 0:
             I.raise_py(ValueError, "negative shift count")
+        xs = z3.simplify(x)
+        if z3.is_mul(xs) and xs.num_args() == 2 and z3.is_int_value(xs.arg(0)) \
+                and xs.arg(0).as_long() == 2 ** yc:
+            return VInt(xs.arg(1))  # (t * 2^k) >> k == t
         return VInt(x / (2 ** yc))  # floor division by a positive constant == arithmetic shift
     if isinstance(op, (ast.BitAnd, ast.BitOr, ast.BitXor)):
         if xc is not None and yc is not None:
@@ -590,7 +837,7 @@ def _disjoint_bits(I: Interp, x: Any, y: Any, xc: int | None, yc: int | None) ->
     for (a, b) in ((x, y), (y, x)):
         for k in (4, 8, 1, 2, 3, 5, 6, 7, 16):
             f = z3.And(a >= 0, a % (2 ** k) == 0, b >= 0, b < 2 ** k)
-            if not I.feasible(z3.Not(f)):
+            if I.entails(f):
                 return True
     return False
 
@@ -622,18 +869,7 @@ def _ite_v(I: Interp, c: Any, a: Callable[[], V], b: Callable[[], V]) -> V:
     return ite_values(c, x, y)
 
 
-def ite_values(c: Any, x: V, y: V) -> V:
-    if isinstance(x, VInt) and isinstance(y, VInt):
-        return VInt(z3.If(c, x.t, y.t), x.enum if x.enum is y.enum else None)
-    if isinstance(x, VBool) and isinstance(y, VBool):
-        return VBool(z3.If(c, x.t, y.t))
-    if isinstance(x, VBytes) and isinstance(y, VBytes):
-        return VBytes(z3.If(c, x.t, y.t))
-    if isinstance(x, VTuple) and isinstance(y, VTuple) and len(x.items) == len(y.items):
-        return VTuple([ite_values(c, p, q) for p, q in zip(x.items, y.items)])
-    if x is y:
-        return x
-    raise Unsupported(f"ite over {x!r} / {y!r}")
+from .values import ite_values  # noqa: E402
 
 
 # --------------------------------------------------------------------------- indexing
@@ -660,8 +896,10 @@ def getitem(I: Interp, base: V, idx: V) -> V:
     if isinstance(base, VBytes):
         if not is_intlike(idx):
             I.raise_py(TypeError, "byte indices must be integers")
-        j = norm_index(I, as_int(I, idx), z3.Length(base.t), "bytes")
-        el = base.t[j]
+        j = norm_index(I, as_int(I, idx), seq_len(base.t), "bytes")
+        el = structural_index(base.t, j, I)
+        if el is None:
+            el = base.t[j]
         I.assume(z3.And(el >= 0, el <= 255))
         return VInt(z3.simplify(el))
     if isinstance(base, (VTuple, VList)) and getattr(base, "items", None) is not None:
@@ -708,7 +946,8 @@ def getitem(I: Interp, base: V, idx: V) -> V:
 
 
 def _clamp(I: Interp, v: V | None, n: Any, default: Any) -> Any:
-    """Python slice bound normalisation (step 1) as a term in [0, n]."""
+    """Python slice bound normalisation (step 1) as a term in [0, n].  When the path condition
+    already decides the clamping (one entailment query), the plain bound is returned."""
     if v is None or v is NONE:
         return default
     i = as_int(I, v)
@@ -716,8 +955,14 @@ def _clamp(I: Interp, v: V | None, n: Any, default: Any) -> Any:
     if z3.is_int_value(ic):
         k = ic.as_long()
         if k >= 0:
+            if k == 0 or I.entails(n >= k) or not I.feasible(n < k):
+                return ic
             return z3.If(n < k, n, ic)
+        if I.entails(n + k >= 0) or not I.feasible(n + k < 0):
+            return n + k
         return z3.If(n + k < 0, z3.IntVal(0), n + k)
+    if I.entails(z3.And(i >= 0, i <= n)) or not I.feasible(z3.Or(i < 0, i > n)):
+        return i
     return z3.If(i < 0, z3.If(n + i < 0, z3.IntVal(0), n + i), z3.If(i > n, n, i))
 
 
@@ -731,9 +976,17 @@ def getslice(I: Interp, base: V, lo: V | None, hi: V | None, step: V | None) -> 
             raise Unsupported("slice with step")
     if isinstance(base, VBytes):
         n = z3.Length(base.t)
+        n = seq_len(base.t)
         a = _clamp(I, lo, n, z3.IntVal(0))
         b = _clamp(I, hi, n, n)
-        ln = z3.If(b - a < 0, z3.IntVal(0), b - a)
+        ln = z3.simplify(b - a)
+        if not (z3.is_int_value(ln) and ln.as_long() >= 0) and not I.entails(b - a >= 0) \
+                and I.feasible(b - a < 0):
+            ln = z3.If(b - a < 0, z3.IntVal(0), b - a)
+        else:
+            st = structural_slice(base.t, z3.simplify(a), z3.simplify(b), I)
+            if st is not None:
+                return VBytes(z3.simplify(st), base.mutable)
         return VBytes(z3.simplify(z3.SubSeq(base.t, a, ln)), base.mutable)
     if isinstance(base, (VTuple, VList)) and getattr(base, "items", None) is not None:
         loc = None if lo in (None, NONE) else VInt(as_int(I, lo)).concrete()
@@ -1100,7 +1353,7 @@ def lazy_attr(I: Interp, obj: VObj, name: str) -> V:
 def _len(I: Interp, args: list[V], kwargs: dict[str, V]) -> V:
     v = args[0]
     if isinstance(v, VBytes):
-        return VInt(z3.Length(v.t))
+        return VInt(seq_len(v.t))
     if isinstance(v, VList):
         return VInt(v.length())
     if isinstance(v, VTuple):
@@ -1647,6 +1900,11 @@ def native_attr(I: Interp, v: V, name: str) -> V:
 
 def native_method(I: Interp, recv: V, name: str, args: list[V], kwargs: dict[str, V]) -> V:
     from . import strings
+    if name == "__base_init__" and isinstance(recv, VObj):
+        # object.__init__ / BaseException.__init__
+        if issubclass(recv.cls, BaseException):
+            recv.fields["args"] = VTuple(args)
+        return NONE
     if isinstance(recv, VInt):
         if name == "to_bytes":
             length = args[0] if args else kwargs.get("length", VInt(1))
